@@ -288,7 +288,7 @@ func ruleSpecAbstractEquality(c *Ctx, r *R) {
 							if o := operandOf(e); o != "" {
 								return []string{cur}, o
 							}
-							if call, ok := e.(*ast.CallExpr); ok && len(call.Args) == 1 {
+							if call, ok := e.(*ast.CallExpr); ok && (len(call.Args) == 1 || (len(call.Args) == 2 && isIdentNamed(call.Fun, "toPrimitive"))) {
 								fname := ""
 								switch f := call.Fun.(type) {
 								case *ast.Ident:
@@ -541,4 +541,9 @@ func retStringsOf(info *types.Info, n ast.Node) []string {
 		return true
 	})
 	return out
+}
+
+func isIdentNamed(e ast.Expr, name string) bool {
+	id, ok := unparen(e).(*ast.Ident)
+	return ok && id.Name == name
 }
